@@ -54,6 +54,7 @@ def find_class(name: str, default_module=None):
 
 
 OPAQUES: dict = {}
+FIELD_TYPES: dict = {}      # class name -> {field: declared type text}, filled from the sidecars in prepare()
 
 
 def decode(x, module=None):
@@ -84,8 +85,13 @@ def decode(x, module=None):
                 name = k
                 if k.startswith("__") and not k.endswith("__"):
                     name = f"_{cls.__name__.lstrip('_')}{k}"
+                val = decode(v, module)
+                ftxt = FIELD_TYPES.get(cls.__name__, {}).get(k, "")
+                if ftxt.startswith("deque[") and isinstance(val, list):
+                    import collections
+                    val = collections.deque(val)
                 try:
-                    object.__setattr__(obj, name, decode(v, module))
+                    object.__setattr__(obj, name, val)
                 except AttributeError:
                     pass  # a field of a base class that this class overrides with a read-only property
             return obj
@@ -121,6 +127,8 @@ def brief(x, depth=0):
 
 def prepare(spec: dict):
     reg = load_sidecars(os.path.join(ROOT, "contracts"))
+    for q, cs in reg.classes.items():
+        FIELD_TYPES[q.split(":")[-1]] = dict(cs.fields)
     ctx = runtime.Ctx(reg)
     unit = spec["unit"]
     if unit in reg.harnesses:
